@@ -37,7 +37,7 @@ class FlatCase:
         return out
 
     def defs(self):
-        out = []
+        out = ["#[derive(Clone)] pub struct ZZ {}"] if any(m["it"] == "cded" for m in self.ms) else []
         for pref, extra in (("D", False), ("DX", True)):
             for p in [()] + self.nodes:
                 fs = [f"pub {l}: V," for l in self.leaves(p)] + [f"pub {q[-1]}: {tyname(pref, q)}," for q in self.children(p)]
@@ -59,7 +59,10 @@ class FlatCase:
         fields = []
         for i, m in enumerate(self.ms, 1):
             a = []
-            if m["path"]:
+            if m["path"] and m["it"] == "cded":
+                # default child path written first points to a node that does not exist; the dedicated ones are the ones that count
+                a.append(f'#[child(zz)] #[child(D| {".".join(m["path"])})] #[child(DX| {".".join(m["path"])})]')
+            elif m["path"]:
                 a.append(f'#[child({".".join(m["path"])})]')
             call = f"chk({i}, ~)?" if fallible else f"tg({i}, ~)"
             if m["it"] == "expr":
@@ -69,6 +72,8 @@ class FlatCase:
             fields.append(f'{" ".join(a)} pub s{i}: V,')
         cps = ", ".join(f'{".".join(q)}: {tyname("D", q)}' for q in self.nodes)
         cpsx = ", ".join(f'{".".join(q)}: {tyname("DX", q)}' for q in self.nodes)
+        if any(m["it"] == "cded" for m in self.ms):
+            cps, cpsx = cps + ", zz: ZZ", cpsx + ", zz: ZZ"      # the shadowed default path must still be a declared one (validation looks at every #[child])
         cp_attr = f"#[child_parents(D| {cps})] #[child_parents(DX| {cpsx})]" if self.nodes else ""
         gh = ""
         if self.gs:
